@@ -7,6 +7,7 @@ import (
 	"encoding/json"
 	"fmt"
 	"os"
+	"strings"
 	"time"
 
 	"github.com/NVIDIA/KAI-scheduler/pkg/scheduler/framework"
@@ -44,6 +45,8 @@ type SchedCheck struct {
 	NewMonitor func() *mon.Monitor
 	// NonTrivialFromStats decides non-triviality from the merged counters (optional).
 	NonTrivialFromStats func(counters map[string]int) bool
+	// PanicIsViolation: a panic inside a cycle refutes this property (C10); otherwise the case is inconclusive.
+	PanicIsViolation bool
 }
 
 // CycleRecord is kept for replay files and history oracles.
@@ -137,6 +140,7 @@ func (s *SchedCheck) RunGenerated(c *spec.Case, env *run.Env) run.CaseResult {
 	w := world.New(st, gen.NewRand(c.Seed, c.Index, 3), c.World)
 	faulty := c.Faults.PBindRequestCreateFails > 0 || c.Faults.PPodDeleteFails > 0 || c.Faults.PEvictCallFails > 0
 	var hist []CycleRecord
+	panicked := false
 	for cyc := 1; cyc <= c.Cycles; cyc++ {
 		before := st.ReadAll()
 		cr := r.Cycle()
@@ -145,7 +149,14 @@ func (s *SchedCheck) RunGenerated(c *spec.Case, env *run.Env) run.CaseResult {
 		stats.Inc("cycles")
 		stats.Add("events", len(cr.Events))
 		if cr.Panic != "" {
-			viols = append(viols, oracle.Viol(s.Id, "sut-panic", firstLine(cr.Panic), cyc, "scheduler cycle panicked: %s", cr.Panic))
+			if s.PanicIsViolation {
+				viols = append(viols, oracle.Viol(s.Id, "sut-panic", panicFrame(cr.Panic), cyc, "scheduler cycle panicked: %s", cr.Panic))
+			} else {
+				// a panic refutes C10 (checked there); here the cycle's decisions so far are still judged and the case
+				// is reported as inconclusive
+				stats.Inc("sut_panics")
+				panicked = true
+			}
 		}
 		if cr.OpenErr != "" {
 			stats.Inc("open_session_errors")
@@ -181,6 +192,10 @@ func (s *SchedCheck) RunGenerated(c *spec.Case, env *run.Env) run.CaseResult {
 	}
 	res.Counters = stats.Counters
 	res.NonTrivial = stats.NonTrivial
+	if panicked && len(viols) == 0 {
+		res.Verdict = run.Inconclusive
+		res.Note = "scheduler cycle panicked (see C10)"
+	}
 	if len(viols) > 0 {
 		res.Verdict = run.Violated
 		res.Violations = viols
@@ -188,6 +203,27 @@ func (s *SchedCheck) RunGenerated(c *spec.Case, env *run.Env) run.CaseResult {
 	}
 	res.Sample = sampleOf(c, hist)
 	return res
+}
+
+// panicFrame extracts the innermost KAI-scheduler frame below the panic from a stack trace.
+func panicFrame(stack string) string {
+	lines := strings.Split(stack, "\n")
+	seenPanic := false
+	for _, l := range lines {
+		if strings.HasPrefix(l, "panic(") {
+			seenPanic = true
+			continue
+		}
+		if seenPanic && strings.HasPrefix(l, "github.com/NVIDIA/KAI-scheduler/pkg/") {
+			fn := l
+			if i := strings.Index(fn, "("); i > 0 {
+				fn = fn[:i]
+			}
+			parts := strings.Split(fn, "/")
+			return parts[len(parts)-1]
+		}
+	}
+	return firstLine(stack)
 }
 
 func firstLine(s string) string {
